@@ -25,6 +25,7 @@
 (* far above the rounding error of any stable update and far below the effect   *)
 (* of a wrong term.                                                             *)
 EXTENDS Integers, Sequences, FiniteSets, TLC, Json, IOUtils, SummaryStats
+LOCAL INSTANCE SequencesExt      \* FoldLeft: long data are folded iteratively, not by recursion
 
 Tr == ndJsonDeserialize(IOEnv.TRACE)
 VARIABLES l,      \* next trace line
@@ -97,9 +98,8 @@ PlainVerdict(t, e, f, pfx) ==
 (* ---------------- weighted summary ---------------- *)
 RECURSIVE Gcd(_, _)
 Gcd(a, b) == IF b = 0 THEN a ELSE Gcd(b, a % b)
-RECURSIVE GcdSeq(_, _, _)
-GcdSeq(s, i, g) == IF i > Len(s) THEN g ELSE GcdSeq(s, i + 1, Gcd(s[i], g))
-KeyOf(v) == LET g == GcdSeq(v.wq, 1, 0) IN <<v.ks, [i \in 1..Len(v.wq) |-> v.wq[i] \div g]>>
+GcdSeq(s) == FoldLeft(LAMBDA g, x : Gcd(x, g), 0, s)
+KeyOf(v) == LET g == GcdSeq(v.wq) IN <<v.ks, <<>> \o [i \in 1..Len(v.wq) |-> v.wq[i] \div g]>>
 EqualWeights(v) == \A i \in 1..Len(v.wq) : v.wq[i] = v.wq[1]
 
 (* two logged values agree within tol quanta (or are the same kind of non-number) *)
@@ -147,14 +147,14 @@ MergePv(pa, na, pb, nb) ==
   ELSE IF na = 0 \/ nb = 0 THEN "merge-with-empty" ELSE "merge"
 AddPv(p) == IF p = "fresh" THEN "adds" ELSE p
 
-RECURSIVE TupleOfKs(_, _, _)
-TupleOfKs(ks, i, t) == IF i > Len(ks) THEN t ELSE TupleOfKs(ks, i + 1, TAdd(t, ks[i], 1))
-RECURSIVE WAddAll(_, _, _, _)
-WAddAll(v, ks, ws, i) ==
-  IF i > Len(ks) THEN v
-  ELSE WAddAll(IF ws[i] = 0 THEN [v EXCEPT !.z = TRUE]
-               ELSE [v EXCEPT !.t = TAdd(@, ks[i], ws[i]), !.u = TAdd(@, ks[i], 1),
-                              !.ks = Append(@, ks[i]), !.wq = Append(@, ws[i])], ks, ws, i + 1)
+TupleOfKs(ks) == FoldLeft(LAMBDA t, k : TAdd(t, k, 1), T0, ks)
+WAddAll(v, ks, ws) ==      \* samples of weight zero are ignored (and remembered in z)
+  LET idx == SelectSeq([i \in 1..Len(ks) |-> i], LAMBDA i : ws[i] # 0)
+  IN [v EXCEPT !.t = FoldLeft(LAMBDA t, i : TAdd(t, ks[i], ws[i]), @, idx),
+               !.u = FoldLeft(LAMBDA t, i : TAdd(t, ks[i], 1), @, idx),
+               !.ks = @ \o [j \in 1..Len(idx) |-> ks[idx[j]]],
+               !.wq = @ \o [j \in 1..Len(idx) |-> ws[idx[j]]],
+               !.z = @ \/ Len(idx) < Len(ks)]
 
 OkInt(k) == k > -1073741824 /\ k < 1073741824
 ObjOk(o) == o \in 1..NObj
@@ -198,16 +198,16 @@ Next ==
                     [] e.op = "merge" -> [U EXCEPT ![e.t] = [t |-> TMerge(U[e.a].t, U[e.b].t),
                                                              pv |-> MergePv(U[e.a].pv, U[e.a].t.n, U[e.b].pv, U[e.b].t.n)]]
                     [] e.op = "reset" -> [U EXCEPT ![e.o] = U0]
-                    [] e.op = "dsum" -> [U EXCEPT ![e.o] = [t |-> TupleOfKs(e.ks, 1, T0), pv |-> "dataset"]]
+                    [] e.op = "dsum" -> [U EXCEPT ![e.o] = [t |-> TupleOfKs(e.ks), pv |-> "dataset"]]
                     [] OTHER -> U
           /\ V' = CASE e.op = "init" -> [o \in 1..NObj |-> V0]
-                    [] e.op = "addw" -> [V EXCEPT ![e.o] = [WAddAll(@, <<e.k>>, <<e.w>>, 1) EXCEPT !.pv = AddPv(@)]]
+                    [] e.op = "addw" -> [V EXCEPT ![e.o] = [WAddAll(@, <<e.k>>, <<e.w>>) EXCEPT !.pv = AddPv(@)]]
                     [] e.op = "mergew" ->
                          LET a == V[e.a]  b == V[e.b] IN
                          [V EXCEPT ![e.t] = [t |-> TMerge(a.t, b.t), u |-> TMerge(a.u, b.u), ks |-> a.ks \o b.ks,
                                              wq |-> a.wq \o b.wq, pv |-> MergePv(a.pv, a.t.n, b.pv, b.t.n), z |-> a.z \/ b.z]]
                     [] e.op = "resetw" -> [V EXCEPT ![e.o] = V0]
-                    [] e.op = "tsum" -> [V EXCEPT ![e.o] = [WAddAll(V0, e.ks, e.ws, 1) EXCEPT !.pv = "timeseries"]]
+                    [] e.op = "tsum" -> [V EXCEPT ![e.o] = [WAddAll(V0, e.ks, e.ws) EXCEPT !.pv = "timeseries"]]
                     [] OTHER -> V
           /\ wc' = IF e.op = "init" THEN e.wc ELSE wc
           /\ seen' = IF e.op = "group" THEN [k \in {} |-> 0]
